@@ -197,6 +197,9 @@ func c23Gen(rt *rapid.T, r *evid.Rec) *hist.Case {
 		if a.Kind == "connect" && rapid.IntRange(0, 3).Draw(rt, "noack") == 0 {
 			a.AutoAck = false
 		}
+		if (a.Kind == "subscribe" || a.Kind == "unsubscribe" || (a.Kind == "publish" && a.QoS > 0)) && rapid.IntRange(0, 3).Draw(rt, "smallpid") == 0 {
+			a.PID = uint16(rapid.IntRange(1, 3).Draw(rt, "pid")) // likely to collide with an identifier that is in use
+		}
 	}
 	nbad := rapid.IntRange(0, 3).Draw(rt, "nbad")
 	for i := 0; i < nbad; i++ {
@@ -224,7 +227,26 @@ func TestC23(t *testing.T) {
 		return
 	}
 	evid.Run(t, r, func(rt *rapid.T) *hist.Case {
-		c := c23Gen(rt, r)
+		// the wire rules are a universal invariant: besides the error-path generator, the histories of the other
+		// simulation-based checks are run through them as well
+		var c *hist.Case
+		switch rapid.IntRange(0, 9).Draw(rt, "generator") {
+		case 0:
+			c = c07Gen(rt)
+			r.Label("generator/C07")
+		case 1:
+			c = c09Gen(rt)
+			r.Label("generator/C09")
+		case 2:
+			c = c10Gen(rt)
+			r.Label("generator/C10")
+		case 3:
+			c = c11Gen(rt)
+			r.Label("generator/C11")
+		default:
+			c = c23Gen(rt, r)
+			r.Label("generator/C23")
+		}
 		r.Sample(c.Summary())
 		return c
 	}, c23Check)
